@@ -9,6 +9,9 @@ import RbModel.Print
 Answer: `(status (instr-tags) (col cp ...) (col cp ...) (col cp ...)...)`: the lowering, then screen, LPT1 and the files:
 column counter and everything written (code points), as they are when the program stops.
 
+`(print.runt (h ...) (tstmt ...))`: a history under an error trap; `tstmt = stmt | (ab k stmt)`, the latter a statement
+abandoned in front of its item number `k` (`Print.lowerAbandoned`); same answer.
+
 `(print.runf (h ...) ((stmt ...) ...) (stmt ...))`: the same with function bodies (lists of statements); an item
 `(k f n)` calls function `f` (0-based) with argument `n` (value `n + 1`): PushRet, the body, PopRet, then the item. -/
 namespace RbModel.Drv.Print
@@ -102,8 +105,26 @@ def sinstrTag : SInstr → String
   | .pushRet => "Push"
   | .popRet => "Pop"
 
+/-- `(ab k stmt)`: the statement is abandoned in front of item `k`; anything else is a whole statement. -/
+def tstmt? : Sexp → Option TStmt
+  | .list [.atom "ab", k, s] => do
+    let k ← k.nat?
+    let s ← stmt? s
+    pure (.abandoned s k)
+  | x => do
+    let s ← stmt? x
+    pure (.whole s)
+
 def handle (cmd : String) (args : List Sexp) : Option String :=
   match cmd, args with
+  | "print.runt", [.list hs, .list stmts] => do
+      -- a history under an error trap, laid out by the harness: whole statements and `(ab k stmt)`
+      let hs ← hs.mapM Sexp.nat?
+      let stmts ← stmts.mapM tstmt?
+      let code := lowerProgramT stmts
+      let (st, err) := runKeep (St.init hs) code
+      let sinks := sink (st.dev .screen) :: sink (st.dev .lpt1) :: hs.map (fun h => sink (st.dev (.file h)))
+      pure (toString (Sexp.list (.atom (errName err) :: .list (code.map fun i => .atom (instrTag i)) :: sinks)))
   | "print.run", [.list hs, .list stmts] => do
       let hs ← hs.mapM Sexp.nat?
       let stmts ← stmts.mapM stmt?
